@@ -103,6 +103,17 @@ def gen_decl(rng, names: Names, depth: int, parent_ns, opts) -> dict:
             d["kind"], d["style"], d["nillable"], d["empty"] = "string", 0, False, rng.random() < opts.get("inline_empty", 0.3)
         return {"name": name, "ns": ns, "shape": "mixed", "attrs": attrs, "inline": inl}
     parts = []
+    if rng.random() < opts.get("runs", 0.2):
+        # known prefix and suffix, in between optional runs of 2-3 children that come all or not at all:
+        # occurrences then differ by whole runs of new children in front of a known one
+        def leaf():
+            return {"t": "el", "decl": gen_decl(rng, names, 99, ns, opts), "min": 1, "max": 1}
+
+        parts.append(leaf())
+        for _ in range(rng.randint(2, 3)):
+            parts.append({"t": "run", "items": [gen_decl(rng, names, 99, ns, opts) for _ in range(rng.randint(2, 3))]})
+        parts.append(leaf())
+        return {"name": name, "ns": ns, "shape": "complex", "attrs": attrs, "parts": parts}
     for _ in range(rng.randint(1, 4)):
         if rng.random() < opts.get("group", 0.25):
             items = [gen_decl(rng, names, depth + 1, ns, opts) for _ in range(rng.randint(2, 3))]
@@ -163,6 +174,9 @@ def instance(rng, d: dict, rep_min: int = 1) -> dict:
                 if p["max"] > 1 and n == 1 and rep_min > 1:
                     n = rep_min  # a repeatable child repeats wherever it appears
                 el["c"].extend(instance(rng, p["decl"], rep_min) for _ in range(n))
+            elif p["t"] == "run":
+                if rng.random() < 0.5:
+                    el["c"].extend(instance(rng, it, rep_min) for it in p["items"])
             else:
                 for _ in range(rng.randint(p["min"], p["max"])):
                     el["c"].extend(instance(rng, it, rep_min) for it in p["items"])
